@@ -274,6 +274,29 @@ class Pristine(object):
         self._proto = {}
 
 
+def full_state_digest(lst):
+    """Digest of EVERYTHING the reader object holds - every attribute, recursively, including which
+    arrays/lists/dicts are one and the same object (aliasing) - except the file object (its offset is
+    part of the state separately) and the simulator-specific bound methods.
+
+    It is the digest of a pickle of the attribute dictionary: pickle writes every container and array
+    once and a back-reference wherever the same object occurs again, so two readers whose attributes are
+    equal but share arrays differently (say a table whose data array is also held in a cache) get
+    different digests.  The canonical state of C07 is built on this, so that no two states are merged on
+    the faith that only the documented cursor fields matter.  Over-fine is safe."""
+    import pickle
+    d = {}
+    for k, v in lst.__dict__.items():
+        if k == '_file' or (hasattr(v, '__func__') and getattr(v, '__self__', None) is lst):
+            continue
+        d[k] = v
+    try:
+        blob = pickle.dumps(d, protocol=4)
+    except Exception as e:
+        raise core.HarnessError('the reader state cannot be serialised for the canonical form: %r' % (e,))
+    return hashlib.blake2b(blob, digest_size=16).hexdigest()
+
+
 def table_digest(table):
     d = table._data
     h = hashlib.blake2b(digest_size=8)
